@@ -3,7 +3,7 @@
 Each row names a function, a target (assignment / struct field / let / return value / constant)
 and the pattern the value must have.  Rows are grouped by property."""
 import hirutil as H
-from hp import (CLAMP, Ctx, ANY, K, L, F, M, C, BIN, UN, CAST, TRY, P, VIA, OR, IF, CONTAINS, find, assignments,
+from hp import (CALLARG, CLAMP, Ctx, ANY, K, L, F, M, C, BIN, UN, CAST, TRY, P, VIA, OR, IF, CONTAINS, find, assignments,
                 struct_field_inits, strip)
 from facts import callee_of, op_local
 from common import loc_of
@@ -29,13 +29,54 @@ class Row:
         self.prop, self.fn, self.label, self.check = prop, fn, label, check
 
 
+def inline_helper(ctx, e):
+    """one level of helper inlining: if `e` (seen through `?`) is a call of a local function, the
+    expression that function returns (seen through an `Ok(..)` wrapper); else None"""
+    e2 = strip(e)
+    if not isinstance(e2, dict):
+        return None
+    d = None
+    if e2.get('k') == 'call' and e2['f'].get('k') == 'path':
+        d = e2['f'].get('def')
+    elif e2.get('k') == 'mcall':
+        d = e2.get('def')
+    h2 = ctx.facts.hir.get(d) if d else None
+    if h2 is None:
+        return None
+    body = h2['body']
+    tail = body.get('expr') if body.get('k') == 'block' else body
+    if tail is None:
+        return None
+    t2 = strip(tail)
+    if isinstance(t2, dict) and t2.get('k') == 'call' and t2['f'].get('name') in ('Ok', 'Some') and len(t2['args']) == 1:
+        t2 = t2['args'][0]
+    return (t2, Ctx(ctx.facts, H.binding_inits(h2)))
+
+
+def pmatch(ctx, pat, e):
+    """pattern match with one level of local helper inlining"""
+    if pat.m(ctx, e):
+        return True
+    ih = inline_helper(ctx, e)
+    if ih is not None and pat.m(ih[1], ih[0]):
+        return True
+    # `helper(x)? <op> ..`: try inlining sub-expressions one level down for binary/method shapes
+    e2 = strip(e)
+    if isinstance(e2, dict) and e2.get('k') == 'local':
+        for init in ctx.inits.get(e2['name'], []):
+            ih = inline_helper(ctx, init)
+            if ih is not None and pat.m(ih[1], ih[0]):
+                return True
+    return False
+
+
 def _all_assign(fn_chain, pat, base='state'):
     def chk(ctx, hfn):
         rhs = assignments(hfn, base, fn_chain)
         if not rhs:
             return False, 'no assignment to `%s.%s` found' % (base, '.'.join(fn_chain)), None
         for r, ln, anc in rhs:
-            if not pat.m(ctx, r):
+            if not pmatch(ctx, pat, r):
                 return False, '`%s.%s` is not assigned a value of the form %r' % (base, '.'.join(fn_chain), pat), ln
         return True, '', rhs[0][1]
     return chk
@@ -47,7 +88,7 @@ def _struct_init(adt, field, pat):
         if not inits:
             return False, 'no `%s { %s: .. }` literal found' % (adt.split('::')[-1], field), None
         for e, ln, anc in inits:
-            if not pat.m(ctx, e):
+            if not pmatch(ctx, pat, e):
                 return False, 'field `%s` of `%s` is not initialised as %r' % (field, adt.split('::')[-1], pat), ln
         return True, '', inits[0][1]
     return chk
@@ -58,7 +99,7 @@ def _let(name, pat, every=True):
         inits = ctx.inits.get(name, [])
         if not inits:
             return False, 'no binding `%s` found' % name, None
-        oks = [pat.m(ctx, i) for i in inits]
+        oks = [pmatch(ctx, pat, i) for i in inits]
         ok = all(oks) if every else any(oks)
         return ok, '' if ok else '`%s` is not bound to a value of the form %r' % (name, pat), inits[0].get('ln')
     return chk
@@ -70,7 +111,7 @@ def _ret(pat):
         tail = body.get('expr') if body.get('k') == 'block' else body
         if tail is None:
             return False, 'function has no tail expression', None
-        ok = pat.m(ctx, tail)
+        ok = pmatch(ctx, pat, tail)
         return ok, '' if ok else 'the returned value is not of the form %r' % (pat,), tail.get('ln')
     return chk
 
@@ -260,7 +301,7 @@ row('C15', HO_FROM, 'velocity',
                                   C('get_precision_adjusted_beat_len', L('slider_velocity'), L('beat_len'), ANY())),
                 base='slider'))
 row('C15', HO_FROM, 'leniency:object',
-    _contains(M('sample_point_at', ANY(), BIN('Add', L('end_time'), K(5.0))), 'object samples looked up 5 ms after the end'))
+    _contains(CALLARG('sample_point_at', BIN('Add', L('end_time'), K(5.0))), 'object samples looked up 5 ms after the end'))
 row('C15', HO_FROM, 'leniency:nodes',
     _let('time', BIN('Add', ANY(), K(5.0))))
 row('C15', HO_FROM, 'default-beat-len',
